@@ -257,3 +257,7 @@ pub trait MarketAgentSet {
         rng: &mut R,
     );
 }
+
+#[cfg(any(kani, verif_replay))]
+#[path = "/verif/harness/agents_mod.rs"]
+pub mod verif;
